@@ -535,6 +535,10 @@ type C02Upd struct {
 	Snaps  [][]*Ver      `json:"snaps"`  // snapshot -> per key version or nil
 	FV     uint32        `json:"fv"`
 	Cutoff uint64        `json:"cutoff"`
+	// OneMsg: all rows travel in ONE snapshot DBI message (the same key several times, in the given
+	// order) and are merged by a single strategy.Update call - multiplicity and order inside a message
+	// must not matter either, also when the DBI is empty to begin with
+	OneMsg bool `json:"one_msg,omitempty"`
 }
 
 func runUpdates(c C02Upd, order []int) (map[string]Ver, []bool, error) {
@@ -558,6 +562,32 @@ func runUpdates(c C02Upd, order []int) (map[string]Ver, []bool, error) {
 		return nil, nil, err
 	}
 	wrote := make([]bool, len(order))
+	if c.OneMsg {
+		err := env.Update(func(txn *lmdb.Txn) error {
+			dbi, err := txn.OpenDBI("d", 0)
+			if err != nil {
+				return err
+			}
+			d := snapshot.NewDBISize(4096)
+			d.SetName("d")
+			for _, si := range order {
+				for ki, v := range c.Snaps[si] {
+					if v != nil {
+						d.Append(v.incoming(c.Keys[ki], c.FV))
+					}
+				}
+			}
+			it, err := syncer.NewNativeIterator(c.FV, 1, d, 0, header.TxnID(txn.ID()), header.Timestamp(c.Cutoff))
+			if err != nil {
+				return err
+			}
+			return strategy.Update(txn, dbi, it)
+		})
+		if err != nil {
+			return nil, nil, fmt.Errorf("strategy.Update: %w", err)
+		}
+		order = nil
+	}
 	for oi, si := range order {
 		before := lm.LastTxnID(env.Env)
 		var beforeDump lm.Dump
@@ -736,12 +766,13 @@ func genC02Upd(t *rapid.T) C02Upd {
 	if rapid.IntRange(0, 3).Draw(t, "cut?") == 0 {
 		c.Cutoff = uint64(rapid.IntRange(1, 5).Draw(t, "cut"))
 	}
+	c.OneMsg = rapid.IntRange(0, 2).Draw(t, "one_msg") == 0
 	return c
 }
 
 func TestC02Update(t *testing.T) {
 	vcore.Run(t, vcore.Config{Property: "C02",
-		Rule: "rapid: real LMDB DBI with 1-4 keys (stored versions optional) and 1-3 multi-key snapshots merged with strategy.Update in every order: same logical content, winner = highest timestamp, re-merge commits no transaction; non-trivial = >=2 snapshots and >=1 key with >=2 versions"},
+		Rule: "rapid: real LMDB DBI with 1-4 keys (stored versions optional) and 1-3 multi-key snapshots merged with strategy.Update in every order (one call per snapshot, or all of them as one message with repeated keys): same logical content, winner = highest timestamp, re-merge commits no transaction; non-trivial = >=2 snapshots and >=1 key with >=2 versions"},
 		genC02Upd, checkC02Upd)
 }
 
